@@ -96,7 +96,7 @@ fn sampled(rng: &mut Rng) -> Scenario {
             if rng.bool(0.3) {
                 let d = sc.dir();
                 let mut te: Vec<f64> = (0..rng.int(1, 25)).map(|_| lerp(sc.x0, sc.xend, rng.f())).collect();
-                if rng.bool(0.3) {
+                if rng.bool(0.6) {
                     te.push(sc.xend);
                 }
                 te.sort_by(|a, b| (a * d).partial_cmp(&(b * d)).unwrap());
